@@ -172,24 +172,20 @@ impl Peer {
         challenge: HandshakeChallenge,
         io_handler: &(dyn InterfaceIO + Send + Sync),
         wallet_lock: Arc<RwLock<Wallet>>,
-        configs_lock: Arc<RwLock<dyn Configuration + Send + Sync>>,
+        configs: &(dyn Configuration + Send + Sync),
     ) -> Result<(), Error> {
         debug!(
             "handling handshake challenge : {:?} for peer : {:?}",
             challenge.challenge.to_hex(),
             self.index,
         );
+        // the caller holds the peers lock : configs (an earlier lock) have to be locked by the caller before that
         let block_fetch_url;
-        let is_lite;
-        {
-            let configs = configs_lock.read().await;
-
-            is_lite = configs.is_spv_mode();
-            if is_lite {
-                block_fetch_url = "".to_string();
-            } else {
-                block_fetch_url = configs.get_block_fetch_url();
-            }
+        let is_lite = configs.is_spv_mode();
+        if is_lite {
+            block_fetch_url = "".to_string();
+        } else {
+            block_fetch_url = configs.get_block_fetch_url();
         }
 
         let wallet = wallet_lock.read().await;
@@ -225,7 +221,7 @@ impl Peer {
         response: HandshakeResponse,
         io_handler: &(dyn InterfaceIO + Send + Sync),
         wallet_lock: Arc<RwLock<Wallet>>,
-        configs_lock: Arc<RwLock<dyn Configuration + Send + Sync>>,
+        configs: &(dyn Configuration + Send + Sync),
         current_time: Timestamp,
     ) -> Result<(), Error> {
         debug!(
@@ -268,16 +264,11 @@ impl Peer {
         }
 
         let block_fetch_url;
-        let is_lite;
-        {
-            let configs = configs_lock.read().await;
-
-            is_lite = configs.is_spv_mode();
-            if is_lite {
-                block_fetch_url = "".to_string();
-            } else {
-                block_fetch_url = configs.get_block_fetch_url();
-            }
+        let is_lite = configs.is_spv_mode();
+        if is_lite {
+            block_fetch_url = "".to_string();
+        } else {
+            block_fetch_url = configs.get_block_fetch_url();
         }
         let wallet = wallet_lock.read().await;
 
